@@ -48,6 +48,11 @@ static std::string run_cell(const Cell &c, const KeySpec &k, bool *nt) {
     TokParts tp = split_token(tok);
     bool have_sig = family && tp.ok && !tp.s.empty();
     if (!have_sig) tok = b64u_enc(hdr) + "." + b64u_enc("{\"sub\":\"floor\"}") + "." + b64u_enc(std::string(64, 'x'));
+    if (!family) {   // key of another family: the strongest attempt is a signature this very key makes with an algorithm of ITS family
+      jwt_alg_t na = k.kind == K_OCT ? JWT_ALG_HS256 : k.kind == K_RSA ? JWT_ALG_RS256 : k.kind == K_OKP ? JWT_ALG_EDDSA : k.bits == 384 ? JWT_ALG_ES384 : k.bits == 521 ? JWT_ALG_ES512 : JWT_ALG_ES256;
+      std::string in = b64u_enc(hdr) + "." + b64u_enc("{\"sub\":\"floor\"}"), sg = ref_sign(k, na, in);
+      if (!sg.empty()) { tok = in + "." + b64u_enc(sg); st.cls("cross-family-token-signed-with-the-key's-native-alg"); }
+    }
     jwt_checker_t *ch = jwt_checker_new(); std::string r;
     if (jwt_checker_setkey(ch, c.alg, pub.item)) { jwt_checker_free(ch); return ok_strength ? "setkey-refuses-adequate-key" : ""; }
     jwt_checker_error_clear(ch);
@@ -64,7 +69,7 @@ int main(int argc, char **argv) {
   Args a = parse_args(argc, argv);
   cur_case() = [] { return cell_json(CUR); };
   Stats &st = stats();
-  std::vector<std::string> rsa = {"rsa_512", "rsa_1024", "rsa_1536", "rsa_2040", "rsa_2047", "rsa_2048", "rsa_2049", "rsa_2056", "rsa_3072", "rsa_4096"};
+  std::vector<std::string> rsa = {"rsa_512", "rsa_1024", "rsa_1536", "rsa_2040", "rsa_2047", "rsa_2048", "rsa_2050", "rsa_2056", "rsa_3072", "rsa_4096"};
   std::vector<std::string> ec = {"ec_p256", "ec_p384", "ec_p521", "ec_k256", "ec_p224", "ec_bp256", "ec_bp384"};
   std::vector<std::string> okp = {"ed25519", "ed448"};
   const jwt_alg_t HS[] = {JWT_ALG_HS256, JWT_ALG_HS384, JWT_ALG_HS512}, RS[] = {JWT_ALG_RS256, JWT_ALG_RS384, JWT_ALG_RS512, JWT_ALG_PS256, JWT_ALG_PS384, JWT_ALG_PS512}, ES[] = {JWT_ALG_ES256, JWT_ALG_ES256K, JWT_ALG_ES384, JWT_ALG_ES512};
@@ -85,6 +90,8 @@ int main(int argc, char **argv) {
     // cross-family probes: the floor of one family must not be satisfied by a key of another
     cells.push_back({Cell{prov, "rsa_2048", 0, JWT_ALG_HS256, op}, fixture("rsa_2048")}); cells.push_back({Cell{prov, "oct", 64, JWT_ALG_RS256, op}, oct_key("oct64", 64)});
     cells.push_back({Cell{prov, "ed25519", 0, JWT_ALG_ES256, op}, fixture("ed25519")}); cells.push_back({Cell{prov, "ec_p256", 0, JWT_ALG_EDDSA, op}, fixture("ec_p256")});
+    cells.push_back({Cell{prov, "ec_k256", 0, JWT_ALG_EDDSA, op}, fixture("ec_k256")}); cells.push_back({Cell{prov, "rsa_2048", 0, JWT_ALG_EDDSA, op}, fixture("rsa_2048")}); cells.push_back({Cell{prov, "ed448", 0, JWT_ALG_ES512, op}, fixture("ed448")});
+    cells.push_back({Cell{prov, "ec_p256", 0, JWT_ALG_RS256, op}, fixture("ec_p256")}); cells.push_back({Cell{prov, "rsa_2048", 0, JWT_ALG_ES256, op}, fixture("rsa_2048")}); cells.push_back({Cell{prov, "oct", 64, JWT_ALG_EDDSA, op}, oct_key("oct64", 64)});
   }
   if (a.thorough() && a.worker == 0) {  // fresh RSA keys around the threshold
     static std::vector<KeySpec> fresh; for (const char *w : {"rsa2047", "rsa2048", "rsa1024"}) fresh.push_back(gen_key(w));
